@@ -16,6 +16,12 @@
 //                               data directives of the log are parsed back into bytes: aux=ok,log=<item size>:<hex>
 //                     -> "E <hex> | pre=<n> lab=<label offset> end=<code size> pad=<1 if padding is all zero> aux=<...>"
 //                     everything after " | " is for the independent monitor only (the model does not produce it).
+//   S                 coverage counters of the model driver; the harness answers "S"
+//   X <mode>          EXECUTE on the host (x86-64, JitRuntime): a generated function reads every successfully added
+//                     constant of the current history back through its label+offset operand and stores it into a buffer
+//                       mode 0: x86::Compiler, new_const(kGlobal)     mode 1: x86::Compiler, new_const(kLocal)
+//                       mode 2: x86::Builder: `mov reg, [pool_label + offset]` loads, ret, embed_const_pool(label, pool)
+//                     -> "X <hex of the bytes read, constants in history order>" | "X UNSUPPORTED" on another host
 #include <asmjit/core.h>
 #include <asmjit/x86.h>
 #include <asmjit/a64.h>
@@ -192,6 +198,77 @@ static void do_embed(State& st, int mode, size_t pre) {
   }
 }
 
+template<typename Emitter>
+static void emit_copy(Emitter& e, const x86::Gp& out, const x86::Gp& t, x86::Mem m, size_t size, size_t pos) {
+  if (size >= 8) {
+    for (size_t k = 0; k < size / 8; k++) {
+      x86::Mem mk = m.clone_adjusted(int64_t(8 * k));
+      mk.set_size(8);
+      e.mov(t.r64(), mk);
+      e.mov(x86::qword_ptr(out, int32_t(pos + 8 * k)), t.r64());
+    }
+  }
+  else if (size == 4) { m.set_size(4); e.mov(t.r32(), m); e.mov(x86::dword_ptr(out, int32_t(pos)), t.r32()); }
+  else if (size == 2) { m.set_size(2); e.movzx(t.r32(), m); e.mov(x86::word_ptr(out, int32_t(pos)), t.r16()); }
+  else { m.set_size(1); e.movzx(t.r32(), m); e.mov(x86::byte_ptr(out, int32_t(pos)), t.r8()); }
+}
+
+static void do_execute(State& st, int mode) {
+  if (Environment::host().arch() != Arch::kX64) { puts("X UNSUPPORTED"); return; }
+  static JitRuntime rt;
+  CodeHolder code;
+  code.init(rt.environment(), rt.cpu_features());
+  size_t total = 0;
+  for (const AddRec& r : st.adds) if (r.ok) total += r.size;
+  std::vector<uint8_t> out(total + 16, 0xCC);
+  typedef void (*Fn)(uint8_t*);
+  Fn fn = nullptr;
+  Error err = Error::kOk;
+  if (mode == 0 || mode == 1) {
+    x86::Compiler cc(&code);
+    FuncNode* f = cc.add_func(FuncSignature::build<void, uint8_t*>());
+    x86::Gp outp = cc.new_gp_ptr("out");
+    x86::Gp t = cc.new_gp64("t");
+    f->set_arg(0, outp);
+    size_t pos = 0;
+    for (const AddRec& r : st.adds) {
+      if (!r.ok) continue;
+      x86::Mem m = cc.new_const(mode == 1 ? ConstPoolScope::kLocal : ConstPoolScope::kGlobal, r.data.data(), r.size);
+      emit_copy(cc, outp, t, m, r.size, pos);
+      pos += r.size;
+    }
+    cc.ret();
+    cc.end_func();
+    err = cc.finalize();
+  }
+  else {
+    x86::Builder b(&code);
+    Label pool_label = b.new_label();
+    x86::Gp outp = x86::rdi;   // SysV; the harness runs on Linux x86-64
+    x86::Gp t = x86::rax;
+    size_t pos = 0;
+    for (const AddRec& r : st.adds) {
+      if (!r.ok) continue;
+      x86::Mem m = x86::ptr(pool_label, int32_t(r.off));
+      emit_copy(b, outp, t, m, r.size, pos);
+      pos += r.size;
+    }
+    b.ret();
+    err = b.embed_const_pool(pool_label, *st.pool);
+    if (err == Error::kOk) err = b.finalize();
+  }
+  if (err == Error::kOk) err = rt.add(&fn, &code);
+  if (err != Error::kOk || !fn) { printf("X ERROR %u\n", unsigned(err)); return; }
+  fn(out.data());
+  rt.release(fn);
+  bool guard = true;
+  for (size_t i = total; i < total + 16; i++) if (out[i] != 0xCC) guard = false;
+  printf("X ");
+  if (!guard) printf("GUARD-BROKEN ");
+  print_hex(out.data(), total);
+  printf("\n");
+}
+
 int main() {
   State st;
   st.fresh();
@@ -241,6 +318,12 @@ int main() {
       int mode = 0; unsigned long pre = 0;
       sscanf(lb.data() + 1, "%d %lu", &mode, &pre);
       do_embed(st, mode, size_t(pre));
+    }
+    else if (c == 'S') { puts("S"); }
+    else if (c == 'X') {
+      int mode = 0;
+      sscanf(lb.data() + 1, "%d", &mode);
+      do_execute(st, mode);
     }
     else if (c == '\n' || c == 0) {}
     else puts("BAD");
